@@ -7,6 +7,7 @@ CONSTANTS
   BoundPairs = {}
   MaxKVs = 15
   MinKVs = 7
+  CheckDrift = FALSE
 CONSTRAINT HWM
 POSTCONDITION Accepted
 CHECK_DEADLOCK FALSE
